@@ -112,19 +112,25 @@ def check(ctx):
     ok = len(rets) == 1 and 'ACTIVE' not in u(rets[0].value) and '.active' not in u(rets[0].value) \
         and 'self.checkpoint_path' in u(rets[0].value)
     run.check(ok, 'RD', fn.where, fn.qualname, u(rets[0].value) if rets else 'return', 'the checkpoint file name is not the final name')
-    ex = [n for n in own_nodes(pc.node) if isinstance(n, ast.Call) and res.external_name(n) in ('os.path.exists', 'os.path.isfile')]
-    uns = [n for n in own_nodes(pc.node) if isinstance(n, ast.Call) and u(n.func) == 'unstream']
-    stc = [n for n in own_nodes(pc.node) if isinstance(n, ast.Call) and u(n.func) == 'stream']
-    exprs = set(u(n.args[0]) for n in ex + uns + stc if n.args)
-    run.check(len(ex) == 1 and len(uns) == 1 and len(stc) == 1 and exprs == {'self.filename'}, 'RD', pc.where, pc.qualname,
+    from sa.pattern import match_expr as _me
+    pcn, cases = commits.checkpoint_chain_cases(ctx)
+    names = set()
+    sel_ok = True
+    for pol, arg, v, _p in cases:
+        if pol is None or arg is None or v is None:
+            sel_ok = False
+            continue
+        names.add(u(arg))
+        readers = [c for c in ast.walk(v) if isinstance(c, ast.Call) and u(c.func) == 'unstream']
+        writers = [c for c in ast.walk(v) if isinstance(c, ast.Call) and u(c.func) == 'stream']
+        names |= set(u(c.args[0]) for c in readers + writers if c.args)
+        # reader only when the final name exists, writer only when it does not
+        sel_ok = sel_ok and (len(readers) == 1 and not writers if pol else len(writers) == 1 and not readers)
+    run.check(names == {'self.filename'}, 'RD', pc.where, pc.qualname,
               'exists(self.filename) / unstream(self.filename) / stream(self.filename)',
-              'existence test, reader and writer do not use the same final file name: %s' % sorted(exprs))
-    # the existence test is the branch condition: reader only in the exists-branch, writer only in the other
-    tests = [n for n in own_nodes(pc.node) if isinstance(n, ast.If)]
-    ok = len(tests) == 1 and ex and ex[0] in list(ast.walk(tests[0].test)) and \
-        any(uns[0] in list(ast.walk(s)) for s in tests[0].body) and any(stc[0] in list(ast.walk(s)) for s in tests[0].orelse) \
-        and not isinstance(tests[0].test, ast.UnaryOp) if (uns and stc) else False
-    run.check(ok, 'RD', pc.where, pc.qualname, 'if exists(final): unstream(final) else: ... stream(final)',
+              'existence test, reader and writer do not use the same final file name: %s' % sorted(names))
+    run.check(sel_ok and {pol for pol, *_ in cases} == {True, False}, 'RD', pc.where, pc.qualname,
+              'if exists(final): unstream(final) else: ... stream(final)',
               'the reader is not selected exactly when the final name exists')
     exm = ck.methods.get('exists')
     if exm is not None:
